@@ -232,20 +232,14 @@ class Check:
                 self.p_errors.append({"kind": "axioms", "theorem": n, "message": f"depends on {bad}"})
             else:
                 self.discharged.append(n)
-        # source grep over the whole Lean tree (comments stripped)
-        for root, _, files in os.walk(LEAN_DIR):
-            if ".lake" in root:
-                continue
-            for fn in files:
-                if not fn.endswith(".lean"):
-                    continue
-                path = os.path.join(root, fn)
-                body = strip_lean_comments(open(path).read())
-                for pat in FORBIDDEN:
-                    m = re.search(pat, body, re.M)
-                    if m:
-                        self.p_errors.append({"kind": "forbidden", "theorem": os.path.relpath(path, LEAN_DIR),
-                                              "message": f"forbidden token {m.group(0)!r}"})
+        # source grep over the import closure of the property module and its drivers (comments stripped)
+        for path in lean_closure([props_file] + [os.path.join(LEAN_DIR, "Driver", e[4:] + ".lean") for e in exes if e.startswith("drv_")]):
+            body = strip_lean_comments(open(path).read())
+            for pat in FORBIDDEN:
+                m = re.search(pat, body, re.M)
+                if m:
+                    self.p_errors.append({"kind": "forbidden", "theorem": os.path.relpath(path, LEAN_DIR),
+                                          "message": f"forbidden token {m.group(0)!r}"})
         return not self.p_errors
 
     # ------------------------------------------------------------------ leg T
@@ -385,6 +379,21 @@ class build_lock:
     def __exit__(self, *a):
         fcntl.flock(self.f, fcntl.LOCK_UN)
         self.f.close()
+
+
+def lean_closure(files):
+    """transitive closure of `import AgVerif.*` / `import Driver.*` starting from files"""
+    seen, todo = [], [f for f in files if os.path.exists(f)]
+    while todo:
+        f = todo.pop()
+        if f in seen:
+            continue
+        seen.append(f)
+        for m in re.finditer(r"^import\s+((?:AgVerif|Driver)\.[\w.]+)", open(f).read(), re.M):
+            q = os.path.join(LEAN_DIR, *m.group(1).split(".")) + ".lean"
+            if os.path.exists(q) and q not in seen:
+                todo.append(q)
+    return seen
 
 
 def lake_build(targets, timeout=3000):
